@@ -43,6 +43,8 @@ type memConn struct {
 	hold   bool
 	parked chan struct{}
 	parkID string
+	// share: hands an id from one scripted client to a second one
+	share chan uuid.UUID
 }
 
 // release lets a parked Send return; reports whether one was parked.
@@ -512,7 +514,7 @@ func runC11(t *testing.T, tier string) int {
 		"explanation":                   "for each of 15 flow-control settings: DFS over all event sequences (publish small/big, stream ack, stream nack as modify-deadline 0, stream Nack, external Acknowledge) up to the depth, each replayed on a fresh real MessageStreamer.Go with an in-memory connection and run to quiescence (synctest.Wait) after every event; pruned on repeated quiescent states; the bound is checked at every Send, the no-stall condition at every quiescent point",
 	}
 	if c11Layer2 != nil && os.Getenv("VERIF_NO_SCHED") == "" {
-		c2, v2, err := c11Layer2(t, tier, t0.Add(budget(tier)))
+		c2, v2, err := c11Layer2(t, tier, report.RealNow().Add(schedBudget(tier)))
 		if err != nil {
 			fmt.Fprintln(os.Stderr, "C11 harness (interleavings):", err)
 			return 2
